@@ -276,7 +276,17 @@ def build_topology(g, prop):
         for i in range(n_ing):
             s = g.source(n_items=rng.choice([2, 4, 8, 16, 30]))
             g.edge(s, c)
-        if rng.random() < 0.6:
+        r = rng.random()
+        if r < 0.2:
+            # chained combiners: the second one receives pallets that already carry items
+            n2 = rng.choice([1, 2])
+            c2 = g.combiner([1] + [rng.choice([1, 2, 3, 4]) for _ in range(n2)])
+            g.edge(c, c2)
+            for i in range(n2):
+                g.edge(g.source(n_items=rng.choice([4, 8, 16, 30])), c2)
+            c = c2
+            r = rng.random() * 0.8 + 0.2
+        if r < 0.65:
             sp = g.splitter()
             g.edge(c, sp)
             for _ in range(rng.choice([1, 2, 3])):
